@@ -620,9 +620,16 @@ def gen_seal_rare(rng):
             continue
         found = None
         plo, phi = -(-T // scale), (2 * T - 2) // scale
-        ps = list(range(max(1, plo), min(phi, total - 1) + 1))
-        rng.shuffle(ps)
-        for p in ps[:40]:
+        lo_p, hi_p = max(1, plo), min(phi, total - 1)
+        if lo_p > hi_p:
+            continue
+        # never materialise the candidate range: it can have 2^31 elements
+        if hi_p - lo_p < 40:
+            ps = list(range(lo_p, hi_p + 1))
+            rng.shuffle(ps)
+        else:
+            ps = [rng.randint(lo_p, hi_p) for _ in range(40)]
+        for p in ps:
             r = scale * p
             if kind == "ones":
                 sol = _solve_cum(scale, sim.lower, 2 * T - 1 - r, T)
@@ -638,7 +645,9 @@ def gen_seal_rare(rng):
                 # lower' in (M - B, M), lower' + r - M < B, no wrap of lower'
                 lo_c = -(-(M - B + 1 - sim.lower) // scale)
                 hi_c = (M - 1 - sim.lower) // scale
-                for cum in range(max(0, lo_c), min(hi_c, total - p) + 1):
+                c_lo, c_hi = max(0, lo_c), min(hi_c, total - p)
+                cand = range(c_lo, c_hi + 1) if c_hi - c_lo < 64 else [rng.randint(c_lo, c_hi) for _ in range(64)]
+                for cum in cand:
                     nl = sim.lower + scale * cum
                     if M - B < nl < M and nl + r >= M and nl + r - M < B:
                         found = (cum, p)
